@@ -29,74 +29,79 @@ func catalogue() map[string][][]string {
 		"SET": {w("SET k1 a POINT 1 2"), w("SET k1 n FIELD f 1 EX 100 POINT 3 4 5"), w("SET k1 a NX POINT 1 2"), w("SET k3 x XX POINT 1 2"),
 			{"SET", "k1", "o", "OBJECT", gPoly}, w("SET k1 s STRING hello"), w("SET k1 h HASH 9tbnwg"), w("SET k1 b BOUNDS 1 2 3 4"),
 			w("SET k1 r RETURN POINT 1 2"), w("SET k1 r FIELD f 1 RETURN WITHFIELDS POINT 1 2"), w("SET k1 a"), w("SET k1"), w("SET k1 a POINT x y"), w("SET k1 a FIELD z 1 POINT 1 2"), {"SET", "k1", "a", "OBJECT", "{bad"}},
-		"FSET":     {w("FSET k1 a f 5"), w("FSET k1 a f 1 g x"), w("FSET k1 nope XX f 1"), w("FSET k1 nope f 1"), w("FSET nokey a f 1"), w("FSET k1 a f"), w("FSET k1 a z 1"),
+		"FSET": {w("FSET k1 a f 5"), w("FSET k1 a f 1 g x"), w("FSET k1 nope XX f 1"), w("FSET k1 nope f 1"), w("FSET nokey a f 1"), w("FSET k1 a f"), w("FSET k1 a z 1"),
 			w("FSET k1 a f 2 RETURN"), w("FSET k1 a f 3 RETURN WITHFIELDS"), w("FSET k1 nope XX f 1 RETURN"), w("FSET k1 a RETURN f 1")},
-		"FGET":     {w("FGET k1 a f"), w("FGET k1 a nofield"), w("FGET k1 nope f"), w("FGET nokey a f"), w("FGET k1 a")},
-		"GET":      {w("GET k1 a"), w("GET k1 a WITHFIELDS"), w("GET k1 a POINT"), w("GET k1 a BOUNDS"), w("GET k1 a HASH 7"), w("GET k1 b"), w("GET k1 nope"), w("GET nokey a"), w("GET k1"), w("GET k1 a HASH 99"), w("GET k1 a BOGUS")},
-		"DEL":      {w("DEL k1 a"), w("DEL k1 nope"), w("DEL k1 nope ERRON404"), w("DEL nokey a ERRON404"), w("DEL k1"), w("DEL k1 a BOGUS")},
-		"PDEL":     {w("PDEL k1 a*"), w("PDEL k1 *"), w("PDEL nokey *"), w("PDEL k1")},
-		"DROP":     {w("DROP k1"), w("DROP nokey"), w("DROP")},
-		"RENAME":   {w("RENAME k1 k5"), w("RENAME k1 k2"), w("RENAME nokey k5"), w("RENAME k1")},
-		"RENAMENX": {w("RENAMENX k1 k5"), w("RENAMENX k1 k2"), w("RENAMENX nokey k5"), w("RENAMENX k1")},
-		"FLUSHDB":  {w("FLUSHDB"), w("FLUSHDB now")},
-		"EXPIRE":   {w("EXPIRE k1 a 100"), w("EXPIRE k1 nope 100"), w("EXPIRE nokey a 100"), w("EXPIRE k1 a x"), w("EXPIRE k1 a")},
-		"PERSIST":  {w("PERSIST k1 t"), w("PERSIST k1 a"), w("PERSIST k1 nope"), w("PERSIST nokey a"), w("PERSIST k1")},
-		"TTL":      {w("TTL k1 t"), w("TTL k1 a"), w("TTL k1 nope"), w("TTL nokey a"), w("TTL k1")},
-		"EXISTS":   {w("EXISTS k1 a"), w("EXISTS k1 nope"), w("EXISTS nokey a"), w("EXISTS k1")},
-		"FEXISTS":  {w("FEXISTS k1 a f"), w("FEXISTS k1 a nofield"), w("FEXISTS k1 nope f"), w("FEXISTS nokey a f"), w("FEXISTS k1 a")},
-		"TYPE":     {w("TYPE k1"), w("TYPE nokey"), w("TYPE")},
-		"BOUNDS":   {w("BOUNDS k1"), w("BOUNDS nokey"), w("BOUNDS")},
-		"KEYS":     {w("KEYS *"), w("KEYS k1*"), w("KEYS nomatch"), w("KEYS")},
-		"STATS":    {w("STATS k1"), w("STATS k1 nokey k2"), w("STATS")},
-		"JGET":     {w("JGET k1 b"), w("JGET k1 b x"), w("JGET k1 b x RAW"), w("JGET k1 c properties.n"), w("JGET k1 b nopath"), w("JGET k1 nope"), w("JGET nokey a"), w("JGET k1"), w("JGET k1 b x BOGUS")},
-		"JSET":     {w("JSET k1 b y 2"), w("JSET k1 b y str"), w("JSET k1 b y 7 STR"), w("JSET k1 b y {\"q\":1} RAW"), w("JSET k1 c properties.p 5"), w("JSET k1 newid v 1"), w("JSET k1 b y"), w("JSET k1 b y 1 BOGUS")},
-		"JDEL":     {w("JDEL k1 b x"), w("JDEL k1 c properties.n"), w("JDEL k1 b nopath"), w("JDEL k1 nope x"), w("JDEL nokey a x"), w("JDEL k1 b")},
-		"SCAN":     {w("SCAN k1"), w("SCAN k1 LIMIT 1"), w("SCAN k1 CURSOR 1 LIMIT 1 IDS"), w("SCAN k1 MATCH a* IDS"), w("SCAN k1 WHERE f 0 2 COUNT"), w("SCAN k1 DESC POINTS"), w("SCAN k1 BOUNDS"), w("SCAN k1 HASHES 5"), w("SCAN k1 NOFIELDS"), w("SCAN nokey"), w("SCAN"), w("SCAN k1 LIMIT x"), w("SCAN k1 BOGUS")},
-		"SEARCH":   {w("SEARCH k1"), w("SEARCH k1 IDS"), w("SEARCH k1 COUNT"), w("SEARCH k1 MATCH h* DESC"), w("SEARCH k1 LIMIT 1"), w("SEARCH nokey"), w("SEARCH"), w("SEARCH k1 BOGUS")},
-		"NEARBY":   {w("NEARBY k1 POINT 1 2"), w("NEARBY k1 POINT 1 2 100000"), w("NEARBY k1 LIMIT 1 IDS POINT 1 2"), w("NEARBY k1 DISTANCE POINT 1 2 500000"), w("NEARBY k1 DISTANCE IDS POINT 1 2"), w("NEARBY k1 DISTANCE POINT 1 2"), w("NEARBY k1 DISTANCE POINTS POINT 1 2 900000"), w("NEARBY k1 COUNT POINT 1 2"), w("NEARBY nokey POINT 1 2"), w("NEARBY k1"), w("NEARBY k1 POINT x y"), w("NEARBY k1 BOUNDS 1 2 3 4")},
-		"WITHIN":   {w("WITHIN k1 BOUNDS 0 0 10 10"), w("WITHIN k1 IDS CIRCLE 1 2 100000"), w("WITHIN k1 COUNT BOUNDS 0 0 10 10"), {"WITHIN", "k1", "OBJECT", gPoly}, w("WITHIN k1 GET k2 a"), w("WITHIN k1 TILE 0 0 1"), w("WITHIN k1 QUADKEY 03"), w("WITHIN k1 HASH 9tb"), w("WITHIN k1 SECTOR 1 2 100000 0 90"), w("WITHIN nokey BOUNDS 0 0 1 1"), w("WITHIN k1"), w("WITHIN k1 BOUNDS 0 0"), w("WITHIN k1 GET nokey a")},
-		"INTERSECTS": {w("INTERSECTS k1 BOUNDS 0 0 10 10"), w("INTERSECTS k1 IDS CIRCLE 1 2 100000"), w("INTERSECTS k1 CLIPBY BOUNDS 0 0 5 5 BOUNDS 0 0 10 10"), {"INTERSECTS", "k1", "OBJECT", gLine}, w("INTERSECTS k1 GET k2 a"), w("INTERSECTS nokey BOUNDS 0 0 1 1"), w("INTERSECTS k1"), w("INTERSECTS k1 CIRCLE 1 2")},
-		"TEST":     {{"TEST", "POINT", "1", "2", "WITHIN", "BOUNDS", "0", "0", "10", "10"}, {"TEST", "GET", "k1", "a", "INTERSECTS", "OBJECT", gPoly}, w("TEST POINT 1 2 INTERSECTS CIRCLE 1 2 100"), w("TEST GET nokey a WITHIN BOUNDS 0 0 1 1"), w("TEST POINT 1 2"), w("TEST")},
-		"SETHOOK":  {w("SETHOOK hk2 http://127.0.0.1:1/x " + fence), w("SETHOOK hk1 http://127.0.0.1:1/x WITHIN k9 FENCE DETECT enter BOUNDS 50 50 51 51"), w("SETHOOK hk3 http://127.0.0.1:1/x META a b EX 100 " + fence), w("SETHOOK hk2"), w("SETHOOK hk2 badendpoint " + fence), w("SETHOOK hk2 http://127.0.0.1:1/x NEARBY k9 POINT 50 50 100")},
-		"SETCHAN":  {w("SETCHAN ch2 " + fence), w("SETCHAN ch1 WITHIN k9 FENCE DETECT enter BOUNDS 50 50 51 51"), w("SETCHAN ch3 META a b EX 100 " + fence), w("SETCHAN ch2"), w("SETCHAN ch2 NEARBY k9 POINT 50 50 100")},
-		"DELHOOK":  {w("DELHOOK hk1"), w("DELHOOK nope"), w("DELHOOK")},
-		"DELCHAN":  {w("DELCHAN ch1"), w("DELCHAN nope"), w("DELCHAN")},
-		"PDELHOOK": {w("PDELHOOK h*"), w("PDELHOOK nope*"), w("PDELHOOK")},
-		"PDELCHAN": {w("PDELCHAN c*"), w("PDELCHAN nope*"), w("PDELCHAN")},
-		"HOOKS":    {w("HOOKS *"), w("HOOKS hk*"), w("HOOKS nomatch"), w("HOOKS")},
-		"CHANS":    {w("CHANS *"), w("CHANS ch*"), w("CHANS nomatch"), w("CHANS")},
-		"EVAL":     {{"EVAL", catScriptW, "0"}, {"EVAL", catScriptR, "0"}, {"EVAL", catScriptDel, "0"}, {"EVAL", "return KEYS[1]..ARGV[1]", "1", "kk", "vv"}, {"EVAL", "return {1,2,{3,'x'}}", "0"}, {"EVAL", "return nil", "0"}, {"EVAL", "syntax error here", "0"}, {"EVAL", "error('boom')", "0"}, {"EVAL", "return 1"}, {"EVAL", "return 1", "x"}, {"EVAL"}},
-		"EVALRO":   {{"EVALRO", catScriptW, "0"}, {"EVALRO", catScriptR, "0"}, {"EVALRO", catScriptDel, "0"}, {"EVALRO", "return 1", "0"}, {"EVALRO"}},
-		"EVALNA":   {{"EVALNA", catScriptW, "0"}, {"EVALNA", catScriptR, "0"}, {"EVALNA", catScriptDel, "0"}, {"EVALNA", "return 1", "0"}, {"EVALNA"}},
-		"EVALSHA":  {{"EVALSHA", catSha, "0"}, {"EVALSHA", "@W", "0"}, {"EVALSHA", "@R", "0"}, {"EVALSHA"}},
-		"EVALROSHA": {{"EVALROSHA", catSha, "0"}, {"EVALROSHA", "@W", "0"}, {"EVALROSHA", "@R", "0"}, {"EVALROSHA"}},
-		"EVALNASHA": {{"EVALNASHA", catSha, "0"}, {"EVALNASHA", "@W", "0"}, {"EVALNASHA", "@R", "0"}, {"EVALNASHA"}},
-		"SCRIPT LOAD":   {{"SCRIPT", "LOAD", "return 2"}, {"SCRIPT", "LOAD", "syntax error here"}, {"SCRIPT", "LOAD"}},
-		"SCRIPT EXISTS": {{"SCRIPT", "EXISTS", catSha}, {"SCRIPT", "EXISTS", "@R", catSha}, {"SCRIPT", "EXISTS"}},
-		"SCRIPT FLUSH":  {{"SCRIPT", "FLUSH"}, {"SCRIPT", "FLUSH", "x"}},
-		"PING":     {w("PING"), w("PING hello"), w("PING a b")},
-		"ECHO":     {w("ECHO hello"), w("ECHO")},
-		"OUTPUT":   {w("OUTPUT"), w("OUTPUT resp"), w("OUTPUT json"), w("OUTPUT bogus"), w("OUTPUT json x")},
-		"AUTH":     {w("AUTH secret"), w("AUTH wrong"), w("AUTH")},
-		"TIMEOUT":  {w("TIMEOUT 1 GET k1 a"), w("TIMEOUT 1 SCAN k1"), w("TIMEOUT 1 SET k1 a POINT 1 2"), w("TIMEOUT 1 DEL k1 a"), {"TIMEOUT", "1", "EVAL", catScriptW, "0"}, w("TIMEOUT x GET k1 a"), w("TIMEOUT 1"), w("TIMEOUT")},
-		"SERVER":   {w("SERVER"), w("SERVER EXT"), w("SERVER bogus")},
-		"INFO":     {w("INFO"), w("INFO server"), w("INFO bogus")},
-		"ROLE":     {w("ROLE"), w("ROLE x")},
-		"HEALTHZ":  {w("HEALTHZ"), w("HEALTHZ x")},
-		"GC":       {w("GC")},
-		"READONLY": {w("READONLY yes"), w("READONLY no"), w("READONLY maybe"), w("READONLY")},
+		"FGET":           {w("FGET k1 a f"), w("FGET k1 a nofield"), w("FGET k1 nope f"), w("FGET nokey a f"), w("FGET k1 a")},
+		"GET":            {w("GET k1 a"), w("GET k1 a WITHFIELDS"), w("GET k1 a POINT"), w("GET k1 a BOUNDS"), w("GET k1 a HASH 7"), w("GET k1 b"), w("GET k1 nope"), w("GET nokey a"), w("GET k1"), w("GET k1 a HASH 99"), w("GET k1 a BOGUS")},
+		"DEL":            {w("DEL k1 a"), w("DEL k1 nope"), w("DEL k1 nope ERRON404"), w("DEL nokey a ERRON404"), w("DEL k1"), w("DEL k1 a BOGUS")},
+		"PDEL":           {w("PDEL k1 a*"), w("PDEL k1 *"), w("PDEL nokey *"), w("PDEL k1")},
+		"DROP":           {w("DROP k1"), w("DROP nokey"), w("DROP")},
+		"RENAME":         {w("RENAME k1 k5"), w("RENAME k1 k2"), w("RENAME nokey k5"), w("RENAME k1")},
+		"RENAMENX":       {w("RENAMENX k1 k5"), w("RENAMENX k1 k2"), w("RENAMENX nokey k5"), w("RENAMENX k1")},
+		"FLUSHDB":        {w("FLUSHDB"), w("FLUSHDB now")},
+		"EXPIRE":         {w("EXPIRE k1 a 100"), w("EXPIRE k1 nope 100"), w("EXPIRE nokey a 100"), w("EXPIRE k1 a x"), w("EXPIRE k1 a")},
+		"PERSIST":        {w("PERSIST k1 t"), w("PERSIST k1 a"), w("PERSIST k1 nope"), w("PERSIST nokey a"), w("PERSIST k1")},
+		"TTL":            {w("TTL k1 t"), w("TTL k1 a"), w("TTL k1 nope"), w("TTL nokey a"), w("TTL k1")},
+		"EXISTS":         {w("EXISTS k1 a"), w("EXISTS k1 nope"), w("EXISTS nokey a"), w("EXISTS k1")},
+		"FEXISTS":        {w("FEXISTS k1 a f"), w("FEXISTS k1 a nofield"), w("FEXISTS k1 nope f"), w("FEXISTS nokey a f"), w("FEXISTS k1 a")},
+		"TYPE":           {w("TYPE k1"), w("TYPE nokey"), w("TYPE")},
+		"BOUNDS":         {w("BOUNDS k1"), w("BOUNDS nokey"), w("BOUNDS")},
+		"KEYS":           {w("KEYS *"), w("KEYS k1*"), w("KEYS nomatch"), w("KEYS")},
+		"STATS":          {w("STATS k1"), w("STATS k1 nokey k2"), w("STATS")},
+		"JGET":           {w("JGET k1 b"), w("JGET k1 b x"), w("JGET k1 b x RAW"), w("JGET k1 c properties.n"), w("JGET k1 b nopath"), w("JGET k1 nope"), w("JGET nokey a"), w("JGET k1"), w("JGET k1 b x BOGUS")},
+		"JSET":           {w("JSET k1 b y 2"), w("JSET k1 b y str"), w("JSET k1 b y 7 STR"), w("JSET k1 b y {\"q\":1} RAW"), w("JSET k1 c properties.p 5"), w("JSET k1 newid v 1"), w("JSET k1 b y"), w("JSET k1 b y 1 BOGUS")},
+		"JDEL":           {w("JDEL k1 b x"), w("JDEL k1 c properties.n"), w("JDEL k1 b nopath"), w("JDEL k1 nope x"), w("JDEL nokey a x"), w("JDEL k1 b")},
+		"SCAN":           {w("SCAN k1"), w("SCAN k1 LIMIT 1"), w("SCAN k1 CURSOR 1 LIMIT 1 IDS"), w("SCAN k1 MATCH a* IDS"), w("SCAN k1 WHERE f 0 2 COUNT"), w("SCAN k1 DESC POINTS"), w("SCAN k1 BOUNDS"), w("SCAN k1 HASHES 5"), w("SCAN k1 NOFIELDS"), w("SCAN nokey"), w("SCAN"), w("SCAN k1 LIMIT x"), w("SCAN k1 BOGUS")},
+		"SEARCH":         {w("SEARCH k1"), w("SEARCH k1 IDS"), w("SEARCH k1 COUNT"), w("SEARCH k1 MATCH h* DESC"), w("SEARCH k1 LIMIT 1"), w("SEARCH nokey"), w("SEARCH"), w("SEARCH k1 BOGUS")},
+		"NEARBY":         {w("NEARBY k1 POINT 1 2"), w("NEARBY k1 POINT 1 2 100000"), w("NEARBY k1 LIMIT 1 IDS POINT 1 2"), w("NEARBY k1 DISTANCE POINT 1 2 500000"), w("NEARBY k1 DISTANCE IDS POINT 1 2"), w("NEARBY k1 DISTANCE POINT 1 2"), w("NEARBY k1 DISTANCE POINTS POINT 1 2 900000"), w("NEARBY k1 COUNT POINT 1 2"), w("NEARBY nokey POINT 1 2"), w("NEARBY k1"), w("NEARBY k1 POINT x y"), w("NEARBY k1 BOUNDS 1 2 3 4")},
+		"WITHIN":         {w("WITHIN k1 BOUNDS 0 0 10 10"), w("WITHIN k1 IDS CIRCLE 1 2 100000"), w("WITHIN k1 COUNT BOUNDS 0 0 10 10"), {"WITHIN", "k1", "OBJECT", gPoly}, w("WITHIN k1 GET k2 a"), w("WITHIN k1 TILE 0 0 1"), w("WITHIN k1 QUADKEY 03"), w("WITHIN k1 HASH 9tb"), w("WITHIN k1 SECTOR 1 2 100000 0 90"), w("WITHIN nokey BOUNDS 0 0 1 1"), w("WITHIN k1"), w("WITHIN k1 BOUNDS 0 0"), w("WITHIN k1 GET nokey a")},
+		"INTERSECTS":     {w("INTERSECTS k1 BOUNDS 0 0 10 10"), w("INTERSECTS k1 IDS CIRCLE 1 2 100000"), w("INTERSECTS k1 CLIPBY BOUNDS 0 0 5 5 BOUNDS 0 0 10 10"), {"INTERSECTS", "k1", "OBJECT", gLine}, w("INTERSECTS k1 GET k2 a"), w("INTERSECTS nokey BOUNDS 0 0 1 1"), w("INTERSECTS k1"), w("INTERSECTS k1 CIRCLE 1 2")},
+		"TEST":           {{"TEST", "POINT", "1", "2", "WITHIN", "BOUNDS", "0", "0", "10", "10"}, {"TEST", "GET", "k1", "a", "INTERSECTS", "OBJECT", gPoly}, w("TEST POINT 1 2 INTERSECTS CIRCLE 1 2 100"), w("TEST GET nokey a WITHIN BOUNDS 0 0 1 1"), w("TEST POINT 1 2"), w("TEST")},
+		"SETHOOK":        {w("SETHOOK hk2 http://127.0.0.1:1/x " + fence), w("SETHOOK hk1 http://127.0.0.1:1/x WITHIN k9 FENCE DETECT enter BOUNDS 50 50 51 51"), w("SETHOOK hk3 http://127.0.0.1:1/x META a b EX 100 " + fence), w("SETHOOK hk2"), w("SETHOOK hk2 badendpoint " + fence), w("SETHOOK hk2 http://127.0.0.1:1/x NEARBY k9 POINT 50 50 100")},
+		"SETCHAN":        {w("SETCHAN ch2 " + fence), w("SETCHAN ch1 WITHIN k9 FENCE DETECT enter BOUNDS 50 50 51 51"), w("SETCHAN ch3 META a b EX 100 " + fence), w("SETCHAN ch2"), w("SETCHAN ch2 NEARBY k9 POINT 50 50 100")},
+		"DELHOOK":        {w("DELHOOK hk1"), w("DELHOOK nope"), w("DELHOOK")},
+		"DELCHAN":        {w("DELCHAN ch1"), w("DELCHAN nope"), w("DELCHAN")},
+		"PDELHOOK":       {w("PDELHOOK h*"), w("PDELHOOK nope*"), w("PDELHOOK")},
+		"PDELCHAN":       {w("PDELCHAN c*"), w("PDELCHAN nope*"), w("PDELCHAN")},
+		"HOOKS":          {w("HOOKS *"), w("HOOKS hk*"), w("HOOKS nomatch"), w("HOOKS")},
+		"CHANS":          {w("CHANS *"), w("CHANS ch*"), w("CHANS nomatch"), w("CHANS")},
+		"EVAL":           {{"EVAL", catScriptW, "0"}, {"EVAL", catScriptR, "0"}, {"EVAL", catScriptDel, "0"}, {"EVAL", "return KEYS[1]..ARGV[1]", "1", "kk", "vv"}, {"EVAL", "return {1,2,{3,'x'}}", "0"}, {"EVAL", "return nil", "0"}, {"EVAL", "syntax error here", "0"}, {"EVAL", "error('boom')", "0"}, {"EVAL", "return 1"}, {"EVAL", "return 1", "x"}, {"EVAL"}},
+		"EVALRO":         {{"EVALRO", catScriptW, "0"}, {"EVALRO", catScriptR, "0"}, {"EVALRO", catScriptDel, "0"}, {"EVALRO", "return 1", "0"}, {"EVALRO"}},
+		"EVALNA":         {{"EVALNA", catScriptW, "0"}, {"EVALNA", catScriptR, "0"}, {"EVALNA", catScriptDel, "0"}, {"EVALNA", "return 1", "0"}, {"EVALNA"}},
+		"EVALSHA":        {{"EVALSHA", catSha, "0"}, {"EVALSHA", "@W", "0"}, {"EVALSHA", "@R", "0"}, {"EVALSHA"}},
+		"EVALROSHA":      {{"EVALROSHA", catSha, "0"}, {"EVALROSHA", "@W", "0"}, {"EVALROSHA", "@R", "0"}, {"EVALROSHA"}},
+		"EVALNASHA":      {{"EVALNASHA", catSha, "0"}, {"EVALNASHA", "@W", "0"}, {"EVALNASHA", "@R", "0"}, {"EVALNASHA"}},
+		"SCRIPT LOAD":    {{"SCRIPT", "LOAD", "return 2"}, {"SCRIPT", "LOAD", "syntax error here"}, {"SCRIPT", "LOAD"}},
+		"SCRIPT EXISTS":  {{"SCRIPT", "EXISTS", catSha}, {"SCRIPT", "EXISTS", "@R", catSha}, {"SCRIPT", "EXISTS"}},
+		"SCRIPT FLUSH":   {{"SCRIPT", "FLUSH"}, {"SCRIPT", "FLUSH", "x"}},
+		"PING":           {w("PING"), w("PING hello"), w("PING a b")},
+		"ECHO":           {w("ECHO hello"), w("ECHO")},
+		"OUTPUT":         {w("OUTPUT"), w("OUTPUT resp"), w("OUTPUT json"), w("OUTPUT bogus"), w("OUTPUT json x")},
+		"AUTH":           {w("AUTH secret"), w("AUTH wrong"), w("AUTH")},
+		"TIMEOUT":        {w("TIMEOUT 1 GET k1 a"), w("TIMEOUT 1 SCAN k1"), w("TIMEOUT 1 SET k1 a POINT 1 2"), w("TIMEOUT 1 DEL k1 a"), {"TIMEOUT", "1", "EVAL", catScriptW, "0"}, w("TIMEOUT x GET k1 a"), w("TIMEOUT 1"), w("TIMEOUT")},
+		"SERVER":         {w("SERVER"), w("SERVER EXT"), w("SERVER bogus")},
+		"INFO":           {w("INFO"), w("INFO server"), w("INFO bogus")},
+		"ROLE":           {w("ROLE"), w("ROLE x")},
+		"HEALTHZ":        {w("HEALTHZ"), w("HEALTHZ x")},
+		"GC":             {w("GC")},
+		"READONLY":       {w("READONLY yes"), w("READONLY no"), w("READONLY maybe"), w("READONLY")},
 		"CONFIG GET":     {w("CONFIG GET requirepass"), w("CONFIG GET *"), w("CONFIG GET maxmemory"), w("CONFIG GET bogus"), w("CONFIG GET")},
 		"CONFIG SET":     {w("CONFIG SET keepalive 300"), w("CONFIG SET maxmemory 0"), w("CONFIG SET bogus 1"), w("CONFIG SET keepalive"), w("CONFIG SET")},
 		"CONFIG REWRITE": {w("CONFIG REWRITE"), w("CONFIG REWRITE x")},
-		"CLIENT":   {w("CLIENT LIST"), w("CLIENT GETNAME"), w("CLIENT SETNAME me"), w("CLIENT KILL id 999"), w("CLIENT BOGUS"), w("CLIENT")},
-		"AOFMD5":   {w("AOFMD5 0 0"), w("AOFMD5 0 10"), w("AOFMD5 0 99999999"), w("AOFMD5 x 0"), w("AOFMD5")},
-		"AOFSHRINK": {w("AOFSHRINK")},
-		"PUBLISH":  {w("PUBLISH ch1 hello"), w("PUBLISH nochan hello"), w("PUBLISH ch1"), w("PUBLISH")},
-		"FOLLOW":   {w("FOLLOW no one"), w("FOLLOW 127.0.0.1"), w("FOLLOW")},
-		"REPLCONF": {w("REPLCONF listening-port 9999"), w("REPLCONF")},
-		"HELLO":    {w("HELLO 3"), w("HELLO")},
-		"COMMAND":  {w("COMMAND"), w("COMMAND DOCS")},
-		"BOGUSCMD": {w("BOGUSCMD"), w("BOGUSCMD a b")},
+		"CLIENT":         {w("CLIENT LIST"), w("CLIENT GETNAME"), w("CLIENT SETNAME me"), w("CLIENT KILL id 999"), w("CLIENT BOGUS"), w("CLIENT")},
+		"AOFMD5":         {w("AOFMD5 0 0"), w("AOFMD5 0 10"), w("AOFMD5 0 99999999"), w("AOFMD5 x 0"), w("AOFMD5")},
+		"AOFSHRINK":      {w("AOFSHRINK")},
+		"PUBLISH":        {w("PUBLISH ch1 hello"), w("PUBLISH nochan hello"), w("PUBLISH ch1"), w("PUBLISH")},
+		"FOLLOW":         {w("FOLLOW no one"), w("FOLLOW 127.0.0.1"), w("FOLLOW")},
+		"SLAVEOF":        {w("SLAVEOF no one"), w("SLAVEOF 127.0.0.1"), w("SLAVEOF")}, // undocumented alias of FOLLOW
+		// commands of the dispatcher that are refused unless the server runs in dev mode
+		"MASSINSERT": {w("MASSINSERT 2 2"), w("MASSINSERT")},
+		"SLEEP":      {w("SLEEP 0.001"), w("SLEEP")},
+		"SHUTDOWN":   {w("SHUTDOWN")},
+		"REPLCONF":   {w("REPLCONF listening-port 9999"), w("REPLCONF")},
+		"HELLO":      {w("HELLO 3"), w("HELLO")},
+		"COMMAND":    {w("COMMAND"), w("COMMAND DOCS")},
+		"BOGUSCMD":   {w("BOGUSCMD"), w("BOGUSCMD a b")},
 	}
 	return c
 }
